@@ -10,7 +10,7 @@ use std::io::{BufRead, Write};
 use std::sync::atomic::Ordering;
 
 pub fn make_ctx(tier: Tier, seed: u64) -> Result<Ctx, String> {
-    Ok(Ctx { corpus: crate::corpus::load()?, models: Models::default(), tier, seed, verbose: false, cpu_scale: 1 })
+    Ok(Ctx { corpus: crate::corpus::load()?, models: Models::default(), tier, seed, verbose: false, cpu_scale: 1, parts: Default::default(), sites: Default::default(), c06_layout: None, rotation: None })
 }
 
 pub fn total_runs(prop: &str, ctx: &mut Ctx) -> Result<u64, String> {
